@@ -148,6 +148,12 @@ def casNode : PC → Option Nat
   | .updCas _ cur _ => some cur
   | _ => none
 
+/-- Inside the iterator's `protect` loop, between the hazard store and the successful validating load. -/
+def unval : PC → Bool
+  | .itHp _ => true
+  | .itLd2 _ => true
+  | _ => false
+
 /-- The iterator is walking (inside `begin()` / `operator++`). -/
 def moving : PC → Bool
   | .itLd1 => true
@@ -219,6 +225,7 @@ structure TInv (s : St) (t : Tid) (pc : PC) : Prop where
   atn : ∀ e, s.hp t = some e → s.hv t = true → moving pc = false → s.home e = some (s.itn t)
   ea : ∀ e, pc = .eaCas e → s.hp t = some e ∧ s.hv t = true
   ld2 : ∀ w, pc = .itLd2 w → s.hp t = w.p
+  hvok : ∀ e, s.hp t = some e → unval pc = false → s.hv t = true
 
 structure SInv (s : St) : Prop where
   ord : OrdP s.lk s.lt s.next s.ncnt
@@ -233,7 +240,7 @@ structure SInv (s : St) : Prop where
 /-! ### Initial state -/
 
 theorem tinv_idle_init (n : Nat) (t : Tid) : TInv (init n) t .idle := by
-  constructor <;> simp [init, wPrev, wCur, wInner, posOf, lpos, ppos, adjOf, priv, pend, casNode]
+  constructor <;> simp [init, wPrev, wCur, wInner, posOf, lpos, ppos, adjOf, priv, pend, casNode, unval]
 
 theorem sinv_init (n : Nat) : SInv (init n) := by
   refine ⟨?_, ?_, ?_, ?_, ?_, ?_, ?_, ?_⟩
